@@ -444,7 +444,7 @@ def a8(F, res):
     clone of the value taken at insertion.  Lookup on re-insertion and un-registration on removal compare / hash the
     *current* value.  So no field that takes part in `T: Eq + Hash` may be writable once the value sits in the arena
     (public field, or assigned through `&mut T` anywhere outside construction) - otherwise a deleted id is handed out
-    again, or two ids denote one value - and `eq` and `hash` must look at the same fields."""
+    again, or two ids denote one value - and `hash` must not look at a field `eq` ignores."""
     elems = set()
     for a in F.adts.values():
         if not a.get('local'):
@@ -489,9 +489,9 @@ def a8(F, res):
             allf = {f['name'] for v in adt['variants'] for f in v['fields']}
             eqf = allf if eqf is None else eqf
             hf = allf if hf is None else hf
-        if eqf != hf:
-            res.bad('interned/%s/eq-hash-agree' % short, '%s::eq looks at %s but hash at %s: equal values may hash differently and the '
-                    'interning map misses them' % (short, sorted(eqf), sorted(hf)))
+        if not hf <= eqf:
+            res.bad('interned/%s/eq-hash-agree' % short, '%s::hash looks at %s, which eq (%s) ignores: equal values may hash differently and '
+                    'the interning map misses them' % (short, sorted(hf - eqf), sorted(eqf)))
         else:
             res.ok('interned/%s/eq-hash-agree' % short, {'type': short, 'key_fields': sorted(eqf)})
         vis = {f['name']: f.get('vis', '') for v in adt['variants'] for f in v['fields']}
